@@ -13,11 +13,29 @@ namespace h
 {
 static const double DTAB[] = { 0.0, 1.0, -1.5, 0.25, 100.0, 1e6, 1e-3, 123456.0, 2.5e10 };
 static const int NDTAB = 9;
+// values only the widest floating point type can hold, next to ordinary ones
+static const long double LDTAB[] = { 1e400L, -1e400L, 1.18973149535723176502e+4932L, 1e-400L, 2.5L, 0.1L, 1e308L * 10 };
+static const int NLDTAB = 7;
+
+// a value with two textual forms: what it converts to and what it streams as
+struct Dual
+{
+    std::string s;
+    operator std::string() const
+    {
+        return "converted:" + s;
+    }
+};
+static std::ostream& operator<<(std::ostream& o, const Dual& d)
+{
+    return o << "streamed:" << d.s;
+}
 
 struct Arg
 {
     int kind = 0; // 0 std::string, 1 long, 2 char, 3 double, 4 const char*, 5 const char[8] (NUL padded),
-                  // 6 std::hex, 7 std::boolalpha (stream manipulators: only in exception arguments)
+                  // 6 std::hex, 7 std::boolalpha (stream manipulators: only in exception arguments),
+                  // 8 long double, 9 Dual (converts to one text, streams as another)
     std::string s;
     long long i = 0;
     int d = 0;
@@ -90,6 +108,10 @@ static std::ostream& operator<<(std::ostream& o, const AnyArg& x)
         return o << static_cast<char>(x.a->s.empty() ? 'c' : x.a->s[0]);
     case 3:
         return o << DTAB[x.a->d % NDTAB];
+    case 8:
+        return o << LDTAB[x.a->d % NLDTAB];
+    case 9:
+        return o << Dual{ x.a->s };
     default:
         return o << x.a->s.c_str();
     }
@@ -112,6 +134,14 @@ static std::string render(const Arg& a)
         return std::to_string(static_cast<long>(a.i));
     case 2:
         return std::string(1, a.s.empty() ? 'c' : a.s[0]);
+    case 8:
+    {
+        std::ostringstream o;
+        o << LDTAB[a.d % NLDTAB];
+        return o.str();
+    }
+    case 9:
+        return "streamed:" + a.s;
     default:
     {
         std::ostringstream o;
@@ -131,7 +161,7 @@ std::string describe(const Case& c)
     const char* sep = c.what == 0 ? (c.supply == 1 ? " .args: " : " % ") : "";
     o << sep;
     for (std::size_t i = 0; i < c.args.size(); ++i)
-        o << (i ? ", " : "") << (c.args[i].kind == 1 || c.args[i].kind == 3 ? render(c.args[i])
+        o << (i ? ", " : "") << (c.args[i].kind == 1 || c.args[i].kind == 3 || c.args[i].kind == 8 ? render(c.args[i])
                                                                              : vf::vis(render(c.args[i]), 40));
     if (c.what)
         o << ")";
@@ -171,7 +201,7 @@ static std::size_t count_placeholders(const std::string& f)
 static Arg gen_arg(vf::Src& src)
 {
     Arg a;
-    a.kind = static_cast<int>(src.weighted({ 35, 18, 10, 10, 17, 10 }));
+    a.kind = static_cast<int>(src.weighted({ 35, 18, 10, 10, 17, 10, 0, 0, 6, 6 }));
     a.s = src.coin(80) ? gen_text(src, 3) : src.bytes_nonul(0, 5);
     if (a.kind == 2 && a.s.empty())
         a.s = "{";
@@ -273,6 +303,12 @@ static void supply_percent(F& f, const Arg& a)
     case 3:
         f % DTAB[a.d % NDTAB];
         break;
+    case 8:
+        f % LDTAB[a.d % NLDTAB];
+        break;
+    case 9:
+        f % Dual{ a.s };
+        break;
     default:
         f % a.s.c_str();
     }
@@ -317,6 +353,13 @@ static std::string raise_what(const std::vector<Arg>& v, bool& caught)
         switch (v.size())
         {
         case 1:
+            // a lone argument goes in as the very object it is, not wrapped
+            if (p->kind == 9)
+                nitro::raise<E>(Dual{ p->s });
+            if (p->kind == 8)
+                nitro::raise<E>(LDTAB[p->d % NLDTAB]);
+            if (p->kind == 0)
+                nitro::raise<E>(p->s);
             nitro::raise<E>(AnyArg{ p });
         case 2:
             nitro::raise<E>(AnyArg{ p }, AnyArg{ p + 1 });
@@ -487,6 +530,37 @@ std::string check(const Case& c, vf::Ctx& ctx)
     {
         raised = true;
         what = e.what();
+    }
+    if (!arity_ok && raised && c.args.size() < k && c.supply == 0)
+    {
+        // asking the same, still incomplete formatter again raises again
+        auto f = nitro::format(c.fmt);
+        for (auto& a : c.args)
+            supply_percent(f, a);
+        int raises = 0;
+        std::string later;
+        for (int round = 0; round < 3; ++round)
+        {
+            try
+            {
+                if (round == 1)
+                {
+                    std::string s = f;
+                    later = s;
+                }
+                else
+                    later = f.str();
+            }
+            catch (const std::exception&)
+            {
+                ++raises;
+            }
+        }
+        if (raises != 3)
+            return "a formatter with " + std::to_string(k) + " placeholders and " + std::to_string(c.args.size()) +
+                   " arguments raised when first asked for its text, but a later request returned " +
+                   vf::vis(later, 200);
+        ctx.tag("arity:too-few-asked-again");
     }
     if (!arity_ok)
     {
